@@ -838,6 +838,15 @@ func (e *env) ops(rich bool) func(n *explore.Node) []explore.Op {
 				if !amt.IsPositive() {
 					return nil, nil
 				}
+				// A validator of the hand-built genesis that holds less than one unit
+				// of consensus power (10^6) is Bonded without ever having entered the
+				// staking module's power index; the end-blocker would never unbond it,
+				// so emptying it leaves a Bonded validator with zero tokens for good —
+				// a state the real staking module cannot be in at a valset end-block.
+				if val.Tokens.LT(sdk.DefaultPowerReduction) && !val.Tokens.Sub(amt).IsPositive() {
+					e.count("n_undelegate_to_zero_of_subunit_validator_skipped")
+					return nil, nil
+				}
 				ok, f := tx(*ctx, a.Actor, &stakingtypes.MsgUndelegate{DelegatorAddress: a.Addr.String(), ValidatorAddress: a.ValAddr.String(), Amount: sdk.NewCoin(world.BondDenom, amt)})
 				if ok {
 					e.count("n_undelegate_ok")
@@ -1292,6 +1301,7 @@ func run(r *report.Run, shard, nshards int, replayFile string) {
 		"skipped snapshot ids are not a violation (ids must strictly increase); snapshots that are not 'worthy' are not stored and not judged",
 		"staking module (status, jailed, tokens), bank and the consensus queue store are trusted; tx atomicity as in baseapp.runTx",
 		"a panic of the valset end-block / just-in-time update while building or publishing is reported under its own signature publish-panic:* (no set is sent at all; in the end-block it would halt the chain)",
+		"validators holding less than one unit of consensus power (stakes 1,2,3 of the alphabet) are Bonded only because the genesis says so; undelegations that would leave such a validator Bonded with zero tokens are not generated (the staking end-blocker would never unbond it; with a total of zero isNewSnapshotWorthy divides by zero and the projection is undefined)",
 		"a snapshot whose total is zero is outside the property (stake fractions undefined); messages for it are skipped and counted",
 		"operations: Delegate/Undelegate/Unbond/Unjail are transactions followed by the staking end-blocker of their block (application order: txs, staking end-block, ..., consensus end-block, ..., valset end-block); Jail is not (the consensus end-blocker jails after the staking end-blocker), StakingEnd is a separate operation",
 		"state hash drops bank/auth (funds 2^70 per account never run out within the bounds) and the valset keep-alive book-keeping (grace-period, unjailed-snapshot: only read by JailInactiveValidators, not run at height 50)",
